@@ -100,7 +100,7 @@ fn err_matches(out: &str, cls: &str) -> bool {
 
 type Handler = fn(&[&str]) -> String;
 fn handler(op: &str) -> Option<Handler> {
-    match op { "DENC" => Some(denc), "DLEN" => Some(dlen), "DDEC" => Some(ddec), "DRT" => Some(drt), "DCOMPAT" => Some(dcompat), "DMETA" => Some(dmeta), _ => None }
+    match op { "DENC" => Some(denc), "DLEN" => Some(dlen), "DDEC" => Some(ddec), "DRT" => Some(drt), "DCOMPAT" => Some(dcompat), "DMETA" => Some(dmeta), "DBIG" => Some(support::dbig as fn(&[&str]) -> String), _ => None }
 }
 
 fn main() {
